@@ -86,6 +86,7 @@ structure Peak (R : Type) where
   val : R
   sample : Nat
   channel : Nat
+deriving DecidableEq
 
 /-- `find_local_peaks_rough` -/
 def localPeaksRough (big thr : R) (b : Batch R) : List (Peak R) :=
@@ -135,6 +136,7 @@ structure RPeak (R : Type) where
   val : R
   sample : Nat
   channel : Nat
+deriving DecidableEq
 
 /-- `find_local_peaks(refinement="integral", integral_patch_size=2r+1)` applied to the rough list:
 crop `k` is taken from flat map `sample*C + channel` -/
@@ -157,6 +159,7 @@ def maxUpTo (f : Nat → R) (k : Nat) : R := f (argmaxUpTo f k)
 structure GPeak (R : Type) where
   pt : Option (Nat × Nat)   -- (x, y)
   val : R
+deriving DecidableEq
 
 def threshold (thr : R) (x y : Nat) (m : R) : GPeak R :=
   if m < thr then ⟨none, 0⟩ else ⟨some (x, y), m⟩
@@ -184,6 +187,13 @@ structure GRPeak (R : Type) where
   rough : Option (Nat × Nat)
   pt : Option (Option (R × R))
   val : R
+deriving DecidableEq
+
+/-- one step of `refined_peaks[valid_idx] += offsets`: row `kr.1` receives the refined point `kr.2` -/
+def scatterStep (acc : List (GRPeak R)) (kr : Nat × Option (R × R)) : List (GRPeak R) :=
+  match acc[kr.1]? with
+  | some e => acc.set kr.1 { e with pt := some kr.2 }
+  | none => acc
 
 /-- `find_global_peaks(refinement="integral")`, flattened `(S*C)` view, written with the code's
 `valid_idx` gather / scatter: `rough` is any rough detector (as-is or repaired). -/
@@ -198,10 +208,7 @@ def globalRefineFlat (rough : Nat → Nat → GPeak R) (r : Nat) (b : Batch R) :
     | some (x, y) => refinePoint b.h b.w (b.flat k) r x y
     | none => none
   -- refined_peaks[valid_idx] += offsets
-  (validIdx.zip refined).foldl (fun acc kr =>
-      match acc[kr.1]? with
-      | some e => acc.set kr.1 { e with pt := some kr.2 }
-      | none => acc) base
+  (validIdx.zip refined).foldl scatterStep base
 
 /-- `refined_peaks.reshape(S, C, 2)[s, c]` -/
 def globalPeaks (rough : Nat → Nat → GPeak R) (r : Nat) (b : Batch R) (s c : Nat) : GRPeak R :=
